@@ -29,7 +29,7 @@
 (* Algorithm-level part (how the code does it): Merge*, ImplCalc, ImplGet  *)
 (* over a small struct shape; checked against Layered in MC_SloLayering.   *)
 (***************************************************************************)
-EXTENDS Naturals, Sequences, FiniteSets
+EXTENDS Naturals, Sequences, FiniteSets, IOUtils
 
 CONSTANT Sections
 
@@ -91,11 +91,18 @@ ExpectedObs(eff) ==
         [p \in {q \in Paths(eff[s], env.dflt[s]) : Layered(eff[s], env.dflt[s], env.labels[n], q) # Unset}
            |-> Layered(eff[s], env.dflt[s], env.labels[n], p)]]]
 
+\* second validation pass of the segments rejected for the recorded finding on MergeCfg (a VALUE field and a LIST field
+\* are overlaid by marshal / unmarshal, known_findings.json): those two paths are not compared there, so that the rest of
+\* such a segment is judged too
+TolerateMerge == "VERIF_TOLERATE_C20_MERGECFG" \in DOMAIN IOEnv
+FindingPath(p) == p \in {"totalNetworkBandwidth", "beClass/blkioQOS/blocks", "lsClass/blkioQOS/blocks", "lsrClass/blkioQOS/blocks",
+                         "systemClass/blkioQOS/blocks", "cgroupRoot/blkioQOS/blocks"}
 \* o (node -> section -> path -> value) is field by field what Layered says, nothing else appears
 ObsOKFor(eff, o) ==
   \A n \in DOMAIN env.labels : \A s \in Sections :
     \A p \in Paths(eff[s], env.dflt[s]) \cup DOMAIN o[n][s] :
-       MGet(o[n][s], p) = Layered(eff[s], env.dflt[s], env.labels[n], p)
+       IF TolerateMerge /\ FindingPath(p) THEN TRUE
+       ELSE MGet(o[n][s], p) = Layered(eff[s], env.dflt[s], env.labels[n], p)
 
 LayeredOK == ObsOKFor(effective, obs)
 
@@ -104,6 +111,7 @@ LayeredOK == ObsOKFor(effective, obs)
 NoLeakFor(eff, o) ==
   \A n \in DOMAIN env.labels : \A s \in Sections : \A p \in DOMAIN o[n][s] :
     LET v == o[n][s][p]  es == eff[s] IN
+    \/ (TolerateMerge /\ FindingPath(p))
     \/ v = MGet(env.dflt[s], p)
     \/ /\ es.st = "parsed"
        /\ \/ v = MGet(es.cluster, p)
